@@ -512,8 +512,12 @@ class PWLCalibration(keras.layers.Layer):
 
   def get_config(self):
     """Standard Keras config for serialization."""
+    input_keypoints = self.input_keypoints
+    if isinstance(input_keypoints, np.ndarray):
+      # The .keras format cannot hand a numpy array back to from_config().
+      input_keypoints = input_keypoints.tolist()
     config = {
-        "input_keypoints": self.input_keypoints,
+        "input_keypoints": input_keypoints,
         "units": self.units,
         "output_min": self.output_min,
         "output_max": self.output_max,
